@@ -259,7 +259,8 @@ def prefix_table(facts, R, fn, pfx):
 
     def lit(text, val):
         """map a guard text to (literal, bool) or None"""
-        t = text
+        import re
+        t = re.sub(r"#\d+\(", "(", text)
         outer = t.split("(", 1)[0]
         if outer.endswith("starts_with") and (t.endswith("'/')") or t.endswith(", 47)")):
             return ("B", val)
